@@ -249,13 +249,29 @@ def ext_parse(ex, proto, raw, *opts):
     return (SInt(status), ParsedSym(vid, proto))
 
 
-def make_ext_model(proto, optnames):
+def make_ext_model(proto, optnames, real=None):
+    """model of an external parser's `parse(message, ...)`.  Arguments are bound the way CPython binds them to the *real*
+    function's signature (positional or keyword, defaults applied), so a call that passes options in the wrong order
+    is seen as what it is."""
+    import inspect
+    sig = inspect.signature(real) if real is not None else None
+
     def model(ex, args, kwargs):
         st = ex.st
-        raw = args[0]
+        if sig is not None:
+            try:
+                bound = sig.bind(*args, **kwargs)
+            except TypeError as e:
+                ex.bm.raise_(TypeError, str(e))
+            bound.apply_defaults()
+            raw = bound.arguments[next(iter(sig.parameters))]
+            given = bound.arguments
+        else:
+            raw = args[0]
+            given = kwargs
         opts = []
         for nm in optnames:
-            v = kwargs.get(nm)
+            v = given.get(nm)
             if v is None:
                 raise Unsupported(f"{proto} parser called without option {nm}")
             opts.append(v)
